@@ -1,0 +1,319 @@
+//! Vec-backed finite map / set with the subset of the `std::collections::{HashMap, HashSet}` API
+//! that this crate uses.  Lookup is a linear scan with `==`; iteration order is insertion order.
+use std::borrow::Borrow;
+
+#[derive(Debug, Clone)]
+pub struct HashMap<K, V> {
+    items: Vec<(K, V)>,
+}
+
+pub struct Values<'a, K, V> {
+    it: std::slice::Iter<'a, (K, V)>,
+}
+pub struct ValuesMut<'a, K, V> {
+    it: std::slice::IterMut<'a, (K, V)>,
+}
+pub struct Iter<'a, K, V> {
+    it: std::slice::Iter<'a, (K, V)>,
+}
+pub struct IterMut<'a, K, V> {
+    it: std::slice::IterMut<'a, (K, V)>,
+}
+pub struct Keys<'a, K, V> {
+    it: std::slice::Iter<'a, (K, V)>,
+}
+
+impl<'a, K, V> Iterator for Values<'a, K, V> {
+    type Item = &'a V;
+    fn next(&mut self) -> Option<&'a V> {
+        self.it.next().map(|(_, v)| v)
+    }
+}
+impl<'a, K, V> Iterator for ValuesMut<'a, K, V> {
+    type Item = &'a mut V;
+    fn next(&mut self) -> Option<&'a mut V> {
+        self.it.next().map(|(_, v)| v)
+    }
+}
+impl<'a, K, V> Iterator for Iter<'a, K, V> {
+    type Item = (&'a K, &'a V);
+    fn next(&mut self) -> Option<(&'a K, &'a V)> {
+        self.it.next().map(|(k, v)| (k, v))
+    }
+}
+impl<'a, K, V> Iterator for IterMut<'a, K, V> {
+    type Item = (&'a K, &'a mut V);
+    fn next(&mut self) -> Option<(&'a K, &'a mut V)> {
+        self.it.next().map(|(k, v)| (&*k, v))
+    }
+}
+impl<'a, K, V> Iterator for Keys<'a, K, V> {
+    type Item = &'a K;
+    fn next(&mut self) -> Option<&'a K> {
+        self.it.next().map(|(k, _)| k)
+    }
+}
+
+impl<K, V> Default for HashMap<K, V> {
+    fn default() -> Self {
+        HashMap { items: Vec::new() }
+    }
+}
+
+pub enum Entry<'a, K, V> {
+    Occupied(&'a mut V),
+    Vacant(&'a mut Vec<(K, V)>, K),
+}
+
+impl<'a, K, V> Entry<'a, K, V> {
+    pub fn or_insert_with<F: FnOnce() -> V>(self, f: F) -> &'a mut V {
+        match self {
+            Entry::Occupied(v) => v,
+            Entry::Vacant(items, k) => {
+                items.push((k, f()));
+                let n = items.len() - 1;
+                &mut items[n].1
+            }
+        }
+    }
+    pub fn or_default(self) -> &'a mut V
+    where
+        V: Default,
+    {
+        self.or_insert_with(V::default)
+    }
+    pub fn or_insert(self, v: V) -> &'a mut V {
+        self.or_insert_with(|| v)
+    }
+}
+
+impl<K, V> HashMap<K, V> {
+    pub fn new() -> Self {
+        HashMap { items: Vec::new() }
+    }
+    pub fn values(&self) -> Values<'_, K, V> {
+        Values { it: self.items.iter() }
+    }
+    pub fn values_mut(&mut self) -> ValuesMut<'_, K, V> {
+        ValuesMut { it: self.items.iter_mut() }
+    }
+    pub fn iter(&self) -> Iter<'_, K, V> {
+        Iter { it: self.items.iter() }
+    }
+    pub fn iter_mut(&mut self) -> IterMut<'_, K, V> {
+        IterMut { it: self.items.iter_mut() }
+    }
+    pub fn keys(&self) -> Keys<'_, K, V> {
+        Keys { it: self.items.iter() }
+    }
+    pub fn len(&self) -> usize {
+        self.items.len()
+    }
+    pub fn is_empty(&self) -> bool {
+        self.items.is_empty()
+    }
+    pub fn retain<F: FnMut(&K, &mut V) -> bool>(&mut self, mut f: F) {
+        self.items.retain_mut(|(k, v)| f(k, v));
+    }
+}
+
+impl<K: PartialEq, V> HashMap<K, V> {
+    fn pos<Q: ?Sized + PartialEq>(&self, k: &Q) -> Option<usize>
+    where
+        K: Borrow<Q>,
+    {
+        let mut i = 0;
+        while i < self.items.len() {
+            if self.items[i].0.borrow() == k {
+                return Some(i);
+            }
+            i += 1;
+        }
+        None
+    }
+    pub fn insert(&mut self, k: K, v: V) -> Option<V> {
+        match self.pos(&k) {
+            Some(i) => Some(std::mem::replace(&mut self.items[i].1, v)),
+            None => {
+                self.items.push((k, v));
+                None
+            }
+        }
+    }
+    pub fn get<Q: ?Sized + PartialEq>(&self, k: &Q) -> Option<&V>
+    where
+        K: Borrow<Q>,
+    {
+        match self.pos(k) {
+            Some(i) => Some(&self.items[i].1),
+            None => None,
+        }
+    }
+    pub fn get_mut<Q: ?Sized + PartialEq>(&mut self, k: &Q) -> Option<&mut V>
+    where
+        K: Borrow<Q>,
+    {
+        match self.pos(k) {
+            Some(i) => Some(&mut self.items[i].1),
+            None => None,
+        }
+    }
+    pub fn contains_key<Q: ?Sized + PartialEq>(&self, k: &Q) -> bool
+    where
+        K: Borrow<Q>,
+    {
+        self.pos(k).is_some()
+    }
+    pub fn remove<Q: ?Sized + PartialEq>(&mut self, k: &Q) -> Option<V>
+    where
+        K: Borrow<Q>,
+    {
+        match self.pos(k) {
+            Some(i) => Some(self.items.remove(i).1),
+            None => None,
+        }
+    }
+    pub fn remove_entry<Q: ?Sized + PartialEq>(&mut self, k: &Q) -> Option<(K, V)>
+    where
+        K: Borrow<Q>,
+    {
+        match self.pos(k) {
+            Some(i) => Some(self.items.remove(i)),
+            None => None,
+        }
+    }
+    pub fn entry(&mut self, k: K) -> Entry<'_, K, V> {
+        match self.pos(&k) {
+            Some(i) => Entry::Occupied(&mut self.items[i].1),
+            None => Entry::Vacant(&mut self.items, k),
+        }
+    }
+    pub fn extend<I: IntoIterator<Item = (K, V)>>(&mut self, iter: I) {
+        for (k, v) in iter {
+            self.insert(k, v);
+        }
+    }
+}
+
+impl<K, V> IntoIterator for HashMap<K, V> {
+    type Item = (K, V);
+    type IntoIter = std::vec::IntoIter<(K, V)>;
+    fn into_iter(self) -> Self::IntoIter {
+        self.items.into_iter()
+    }
+}
+impl<'a, K, V> IntoIterator for &'a HashMap<K, V> {
+    type Item = (&'a K, &'a V);
+    type IntoIter = Iter<'a, K, V>;
+    fn into_iter(self) -> Self::IntoIter {
+        self.iter()
+    }
+}
+impl<K: PartialEq, V> FromIterator<(K, V)> for HashMap<K, V> {
+    fn from_iter<I: IntoIterator<Item = (K, V)>>(iter: I) -> Self {
+        let mut m = HashMap::new();
+        m.extend(iter);
+        m
+    }
+}
+
+impl<K: serde::Serialize, V: serde::Serialize> serde::Serialize for HashMap<K, V> {
+    fn serialize<S: serde::Serializer>(&self, s: S) -> Result<S::Ok, S::Error> {
+        s.collect_map(self.items.iter().map(|(k, v)| (k, v)))
+    }
+}
+impl<'de, K: serde::Deserialize<'de> + PartialEq, V: serde::Deserialize<'de>> serde::Deserialize<'de> for HashMap<K, V> {
+    fn deserialize<D: serde::Deserializer<'de>>(d: D) -> Result<Self, D::Error> {
+        // never executed under the model checker (JSON entry points are outside every claim)
+        let v: Vec<(K, V)> = serde::Deserialize::deserialize(d)?;
+        Ok(v.into_iter().collect())
+    }
+}
+
+#[derive(Debug, Clone)]
+pub struct HashSet<T> {
+    items: Vec<T>,
+}
+
+impl<T> Default for HashSet<T> {
+    fn default() -> Self {
+        HashSet { items: Vec::new() }
+    }
+}
+
+impl<T> HashSet<T> {
+    pub fn new() -> Self {
+        HashSet { items: Vec::new() }
+    }
+    pub fn len(&self) -> usize {
+        self.items.len()
+    }
+    pub fn is_empty(&self) -> bool {
+        self.items.is_empty()
+    }
+    pub fn iter(&self) -> std::slice::Iter<'_, T> {
+        self.items.iter()
+    }
+}
+
+impl<T: PartialEq> HashSet<T> {
+    pub fn contains<Q: ?Sized + PartialEq>(&self, k: &Q) -> bool
+    where
+        T: Borrow<Q>,
+    {
+        let mut i = 0;
+        while i < self.items.len() {
+            if self.items[i].borrow() == k {
+                return true;
+            }
+            i += 1;
+        }
+        false
+    }
+    pub fn insert(&mut self, v: T) -> bool {
+        if self.contains(&v) {
+            false
+        } else {
+            self.items.push(v);
+            true
+        }
+    }
+    pub fn extend<I: IntoIterator<Item = T>>(&mut self, iter: I) {
+        for v in iter {
+            self.insert(v);
+        }
+    }
+}
+
+impl<T> IntoIterator for HashSet<T> {
+    type Item = T;
+    type IntoIter = std::vec::IntoIter<T>;
+    fn into_iter(self) -> Self::IntoIter {
+        self.items.into_iter()
+    }
+}
+impl<'a, T> IntoIterator for &'a HashSet<T> {
+    type Item = &'a T;
+    type IntoIter = std::slice::Iter<'a, T>;
+    fn into_iter(self) -> Self::IntoIter {
+        self.items.iter()
+    }
+}
+impl<T: PartialEq> FromIterator<T> for HashSet<T> {
+    fn from_iter<I: IntoIterator<Item = T>>(iter: I) -> Self {
+        let mut m = HashSet::new();
+        m.extend(iter);
+        m
+    }
+}
+impl<T: serde::Serialize> serde::Serialize for HashSet<T> {
+    fn serialize<S: serde::Serializer>(&self, s: S) -> Result<S::Ok, S::Error> {
+        s.collect_seq(self.items.iter())
+    }
+}
+impl<'de, T: serde::Deserialize<'de> + PartialEq> serde::Deserialize<'de> for HashSet<T> {
+    fn deserialize<D: serde::Deserializer<'de>>(d: D) -> Result<Self, D::Error> {
+        let v: Vec<T> = serde::Deserialize::deserialize(d)?;
+        Ok(v.into_iter().collect())
+    }
+}
